@@ -69,6 +69,7 @@ impl<'lifespan> ChemicalCompositionMap<'lifespan> {
 
     #[inline]
     pub fn iter_mut(&mut self) -> IterMut<ElementSpecification<'lifespan>, i32> {
+        self.mass_cache = None;
         (self.composition).iter_mut()
     }
 
